@@ -85,8 +85,10 @@ where
         Some(pos) => {
             let mut res = String::from(&s[..pos]);
             res.reserve(s.len() - res.len());
-            let mut begin = true;
-            let mut prev_space = false;
+            // Resume in the state the scan was in at `pos`: the copied prefix
+            // may already hold non-space characters and may end with a space
+            let mut begin = res.is_empty();
+            let mut prev_space = res.ends_with(common::SPACE);
             for c in s[pos..].chars() {
                 if !common::is_space_separator(c) {
                     res.push(c);
